@@ -22,6 +22,11 @@ TRUSTED_BASE = ["Coq 8.16.1 kernel (vm_compute)", "tools/gen_tables.py (codes, s
 ASSUMPTIONS = ["json.loads delivers the request value (parser is an oracle)"]
 
 
+OWN_APDU = {"sign": 0x02, "getPubKey": 0x04, "advanceBlockchain": 0x10, "resetAdvanceBlockchain": 0x21,
+            "blockchainState": 0x20, "updateAncestorBlock": 0x30, "blockchainParameters": 0x11,
+            "signerHeartbeat": 0x60, "uiHeartbeat": 0x60}
+
+
 def oracle(case, obs):
     meta = case["meta"]
     r = obs["replies"][-1]
@@ -40,6 +45,17 @@ def oracle(case, obs):
         verdict = sp.ACCEPT
     else:
         verdict = code
+    # a validation code of the command itself given although the command's own exchange never started:
+    # the request was not accepted, so nothing at all may have happened on the link (no repair either)
+    own = OWN_APDU.get(value.get("command") if isinstance(value, dict) and
+                       isinstance(value.get("command"), str) else None)
+    own_started = own is not None and any(e[0] == "A" and e[1][1] == own for e in obs["trace"])
+    # (sign only: its -101/-102/-103 are decided before the device is needed - C14 says so for -102;
+    #  the block commands discover an undecodable block only inside the device layer, after a pending
+    #  reconnection has been carried out: that request passed validation, see DESIGN.md observations)
+    if napdu > 0 and not own_started and own == 0x02 and -104 < code < -100:
+        return {"key": "C02:contact-on-rejected", "what": "request answered %d without any exchange of its "
+                "own command, yet the link was used (%d events: repair of a pending fault?)" % (code, napdu)}
     if napdu > 0 and code in (C["format"], C["invalid"], C["unknown"], C["version"]) and case["mode"] == "v5":
         return {"key": "C02:exchange-on-rejected", "what": "request answered %d (generic rejection) "
                 "after exchanging %d APDUs" % (code, napdu)}
